@@ -313,7 +313,7 @@ func init() {
 			pc := genParseCase(c.P.Seed, "C07h", idx, 90)
 			c07Hostile(c, pc.Src, pc.Ver)
 		},
-		RunWitness: func(c *core.Ctx, w core.Witness) { c07Hostile(c, w.Src, w.Ver) },
+		RunWitness:    func(c *core.Ctx, w core.Witness) { c07Hostile(c, w.Src, w.Ver) },
 		MinNonTrivial: 500,
 	})
 }
